@@ -1,6 +1,7 @@
 (* C17 driver: replays the Go trace of dot/state finalisation on the extracted model (model_eq)
-   and evaluates check_finalisation of coq/C17/Spec.v (monotone / failure changes nothing /
-   by-number from the database / no leftovers) on the implementation's observables (prop_ok).
+   and evaluates check_finalisation of coq/C17/Spec.v (an accepted request moves the head to
+   its target / any other request fails and changes nothing / by-number lookups and the
+   database's number index / no leftovers) on the implementation's observables (prop_ok).
    Grammar: see props/C17/harness_test.go. *)
 open Model
 open Vutil
@@ -52,29 +53,37 @@ let check inp obs =
     let byn = String.concat "," (List.map (fun (k, r) ->
         xs (int_of_n k) ^ "=" ^ (match r with Ok h -> id_of h | _ -> "!")) o.o_bynum) in
     let fl = String.concat "" (List.map (fun (_, x) ->
-        xs ((if x.fl_has then 8 else 0) + (if x.fl_get then 4 else 0) + (if x.fl_unfin then 2 else 0)
-            + (if x.fl_trie then 1 else 0))) o.o_flags) in
-    Printf.sprintf "%s;%s;%s;%s;%s" hi byn fl (xs (int_of_n o.o_tries))
-      (match best with Ok h -> id_of h | _ -> "err") in
+        Printf.sprintf "%02x" ((if x.fl_db then 16 else 0) + (if x.fl_has then 8 else 0) + (if x.fl_get then 4 else 0)
+            + (if x.fl_unfin then 2 else 0) + (if x.fl_trie then 1 else 0))) o.o_flags) in
+    let dbn = String.concat "," (List.map (fun (k, r) ->
+        xs (int_of_n k) ^ "=" ^ (match r with Some h -> id_of h | None -> "-")) o.o_dbnum) in
+    Printf.sprintf "%s;%s;%s;%s;%s;%s" hi byn fl (xs (int_of_n o.o_tries))
+      (match best with Ok h -> id_of h | _ -> "err") dbn in
   (* parsing of an implementation observation *)
   let parse_obs s : obs option =
     match split ';' s with
-    | [hi; byn; fl; tl; _best] ->
+    | [hi; byn; fl; tl; _best; dbn] ->
       (try
         let oh = if hi = "err" then Err (nat_of_int 9) else if hi = "?" then Ok never_hash else Ok (hash (hexi hi)) in
         let ob = List.map (fun e -> match split '=' e with
             | [k; v] -> (n_of_int (hexi k),
                          if v = "!" then Err (nat_of_int 9) else if v = "?" then Ok never_hash else Ok (hash (hexi v)))
             | _ -> raise Exit) (split ',' byn) in
-        if String.length fl <> nblk + 1 then raise Exit;
+        if String.length fl <> 2 * (nblk + 1) then raise Exit;
         let ofl = List.init (nblk + 1) (fun i ->
-            let v = hexi (String.make 1 fl.[i]) in
-            (hash i, { fl_has = v land 8 <> 0; fl_get = v land 4 <> 0; fl_unfin = v land 2 <> 0; fl_trie = v land 1 <> 0 })) in
-        Some { o_highest = oh; o_bynum = ob; o_flags = ofl; o_tries = n_of_int (hexi tl) }
+            let v = hexi (String.sub fl (2 * i) 2) in
+            (hash i, { fl_has = v land 8 <> 0; fl_get = v land 4 <> 0; fl_unfin = v land 2 <> 0; fl_trie = v land 1 <> 0;
+                       fl_db = v land 16 <> 0 })) in
+        let od = List.map (fun e -> match split '=' e with
+            | [k; v] -> (n_of_int (hexi k),
+                         if v = "-" then None else if v = "?" then Some never_hash else Some (hash (hexi v)))
+            | _ -> raise Exit) (split ',' dbn) in
+        Some { o_highest = oh; o_bynum = ob; o_flags = ofl; o_tries = n_of_int (hexi tl); o_dbnum = od }
       with _ -> None)
     | _ -> None in
   let str_add = function Ok _ -> "ok" | Err c -> "e" ^ string_of_int (int_of_nat c) | Panic -> "panic" | OutOfFuel -> "fuel" in
-  (* model replay; [pre] uses the pinned pre-fix Prune *)
+  (* model replay; [pre] = 1 uses the pinned pre-fix Prune, 2 the pinned order of the set-id
+     comparison (after the writes) *)
   let model_tokens pre =
     let st = ref (genesis_state (hash 0) (root_n 0)) in
     let ob () = fmt_obs (observe !st blocks nums) (best_block_hash (!st).bs_tree) in
@@ -88,13 +97,14 @@ let check inp obs =
         (match split '.' (String.sub op 1 (String.length op - 1)) with
          | [i; r; s] ->
            let before = ob () in
-           let (st', res) = (if pre then set_finalised_prefix else set_finalised) !st (hash (hexi i)) (n_of_hex r) (n_of_hex s) in
+           let (st', res) = (if pre = 1 then set_finalised_prefix else if pre = 2 then set_finalised_late else set_finalised)
+               !st (hash (hexi i)) (n_of_hex r) (n_of_hex s) in
            st := st';
            "F:" ^ (match res with Ok _ -> "ok" | _ -> "err") ^ "|" ^ before ^ "|" ^ ob ()
          | _ -> fail "C17: bad op %s" op)
       | 's' -> "S:" ^ ob ()
       | _ -> fail "C17: bad op %s" op) ops in
-  let mt = model_tokens false in
+  let mt = model_tokens 0 in
   let model_eq = (mt = otoks) in
   (* the property on the implementation's observables *)
   let fs = ref (f_genesis (hash 0) (root_n 0)) in
@@ -103,8 +113,6 @@ let check inp obs =
   let tag x = Hashtbl.replace tags x () in
   let note k w = bad := Printf.sprintf "op#%d:%s" k w :: !bad in
   let nontrivial = ref false in
-  let diverged = ref false in      (* after a set-id regression the specification stops following *)
-  let highest_setid = ref 0 in
   if List.length otoks <> List.length ops then note 0 "token-count"
   else List.iteri (fun k (op, tok) ->
       match op.[0] with
@@ -113,62 +121,58 @@ let check inp obs =
         let (f', r) = f_add !fs (header i) (root_n blks.(i).sroot) blks.(i).arrival in
         let want = "A:" ^ str_add r in
         tag ("add-" ^ str_add r);
-        if not !diverged && tok <> want then note k (Printf.sprintf "AddBlock=%s spec=%s" tok want);
+        if tok <> want then note k (Printf.sprintf "AddBlock=%s spec=%s" tok want);
         fs := f'
       | 'f' ->
         (match split '.' (String.sub op 1 (String.length op - 1)) with
          | [i; _r; s] ->
            let h = hash (hexi i) in
-           let sid = hexi s in
+           let sid = n_of_hex s in
            (match split '|' tok with
             | [res; b; a] when String.length res > 2 && String.sub res 0 2 = "F:" ->
               let ok = (res = "F:ok") in
               (match parse_obs b, parse_obs a with
                | Some ob, Some oa ->
                  let adm = f_admissible !fs h in
-                 let regress = sid < !highest_setid in
-                 if not !diverged then begin
-                   if adm && regress then begin
-                     (* outside the property: an admissible target refused because of its set id *)
-                     tag "fin-setid-regression"; diverged := true
-                   end else begin
-                     if not (check_finalisation !fs h ok ob oa) then begin
-                       let why =
-                         if not (check_request !fs h ok ob oa) then
-                           (if adm then "head is not the target after success"
-                            else if ok then "succeeded for a target that is not a held descendant of the head"
-                            else "failed but changed the state: before=" ^ b ^ " after=" ^ a)
-                         else begin
-                           let f' = f_fin !fs h in
-                           if not (check_by_number f' oa) then "by-number lookup of the finalised chain: " ^ a
-                           else begin
-                             let left = List.filter (fun (x, _) -> f_abandoned f' x) oa.o_flags in
-                             "leftovers of abandoned blocks [" ^ String.concat "," (List.map (fun (x, fl) ->
-                                 Printf.sprintf "%s:%s%s%s%s" (id_of x) (if fl.fl_has then "H" else "") (if fl.fl_get then "G" else "")
-                                   (if fl.fl_unfin then "U" else "") (if fl.fl_trie then "T" else "")) left) ^ "]"
-                           end
-                         end in
-                       note k (Printf.sprintf "SetFinalisedHash(%s)=%s: %s" (id_of h) (if ok then "ok" else "err") why)
-                     end;
-                     if adm && not ok then note k (Printf.sprintf "SetFinalisedHash(%s) refused for a held block" (id_of h));
-                     if ok then begin
+                 let acc = f_accepts !fs h sid in
+                 if not (check_finalisation !fs h sid ok ob oa) then begin
+                   let why =
+                     if not (check_request !fs h sid ok ob oa) then
+                       (if acc && not ok then "refused for a held block with an acceptable set id"
+                        else if acc then "head is not the target after success"
+                        else if ok then
+                          (if adm then "succeeded with a set id below the recorded one"
+                           else "succeeded for a target that is not a held descendant of the head")
+                        else "failed but changed the state: before=" ^ b ^ " after=" ^ a)
+                     else begin
                        let f' = f_fin !fs h in
-                       let nab = List.length (List.filter (fun (x, _) -> f_abandoned f' x) oa.o_flags) in
-                       let nab0 = List.length (List.filter (fun (x, _) -> f_abandoned !fs x) ob.o_flags) in
-                       tag (if h = (!fs).f_set.s_root then "fin-same-head"
-                            else if nab = nab0 then "fin-ok-abandons-0"
-                            else if nab - nab0 < 3 then "fin-ok-abandons-1-2" else "fin-ok-abandons-3+");
-                       if nab > nab0 then nontrivial := true;
-                       fs := f';
-                       if sid > !highest_setid then highest_setid := sid
-                     end else begin
-                       tag (if idx_of h < 0 then "fin-unknown"
-                            else if List.exists (fun (_, c) -> c = h) (!fs).f_chain then "fin-stale"
-                            else if f_abandoned !fs h then "fin-abandoned-target"
-                            else "fin-never-added");
-                       nontrivial := true
-                     end
-                   end
+                       if not (check_by_number f' oa) then "by-number lookup / database number index of the finalised chain: " ^ a
+                       else begin
+                         let left = List.filter (fun (x, _) -> f_abandoned f' x) oa.o_flags in
+                         "leftovers of abandoned blocks [" ^ String.concat "," (List.map (fun (x, fl) ->
+                             Printf.sprintf "%s:%s%s%s%s" (id_of x) (if fl.fl_has then "H" else "") (if fl.fl_get then "G" else "")
+                               (if fl.fl_unfin then "U" else "") (if fl.fl_trie then "T" else "")) left) ^ "]"
+                       end
+                     end in
+                   note k (Printf.sprintf "SetFinalisedHash(%s, set %s)=%s: %s" (id_of h) s (if ok then "ok" else "err") why)
+                 end;
+                 if acc then begin
+                   let f' = f_request !fs h sid in
+                   let nab = List.length (List.filter (fun (x, _) -> f_abandoned f' x) oa.o_flags) in
+                   let nab0 = List.length (List.filter (fun (x, _) -> f_abandoned !fs x) ob.o_flags) in
+                   tag (if h = (!fs).f_set.s_root then "fin-same-head"
+                        else if nab = nab0 then "fin-ok-abandons-0"
+                        else if nab - nab0 < 3 then "fin-ok-abandons-1-2" else "fin-ok-abandons-3+");
+                   if sid <> (!fs).f_setid then tag "fin-ok-new-set";
+                   if nab > nab0 then nontrivial := true;
+                   fs := f'
+                 end else begin
+                   tag (if adm then (if h = (!fs).f_set.s_root then "fin-stale-setid-head" else "fin-stale-setid-held")
+                        else if idx_of h < 0 then "fin-unknown"
+                        else if List.exists (fun (_, c) -> c = h) (!fs).f_chain then "fin-stale"
+                        else if f_abandoned !fs h then "fin-abandoned-target"
+                        else "fin-never-added");
+                   nontrivial := true
                  end
                | _ -> note k "observation-shape")
             | _ -> note k ("shape " ^ tok))
@@ -176,7 +180,8 @@ let check inp obs =
       | 's' -> ()
       | _ -> fail "C17: bad op %s" op) (List.combine ops otoks);
   if not model_eq then begin
-    if model_tokens true = otoks then tag "equals-prefix-model"
+    if model_tokens 1 = otoks then tag "equals-prefix-prune-model"
+    else if model_tokens 2 = otoks then tag "equals-late-setid-model"
   end;
   let prop_ok = (!bad = []) in
   let first_diff =
@@ -191,4 +196,47 @@ let check inp obs =
     detail = (if prop_ok && model_eq then "" else
                 String.concat " | " (List.rev !bad) ^ (if first_diff = "" then "" else " || " ^ first_diff)) }
 
-let () = run_driver check
+(* vm_compute cross-check: the history replayed inside Coq (srun of coq/C17/Model.v) must give the
+   ok/err outcome of every AddBlock / SetFinalisedHash and the final finalised head the
+   implementation reported *)
+let coq inp obs =
+  try
+    let f = split_ws inp in
+    let nblk, rest = match f with "t" :: nb :: rest -> hexi nb, rest | _ -> raise Exit in
+    if nblk > 10 then raise Exit;
+    let rec take k l acc = if k = 0 then (List.rev acc, l) else
+        match l with x :: r -> take (k - 1) r (x :: acc) | [] -> raise Exit in
+    let blks_s, ops = take nblk rest [] in
+    let blks = Array.of_list (("0", "0", 0, "0", 0) :: List.map (fun s -> match split '.' s with
+        | [p; nu; k; a; sr] -> (p, nu, hexi k, a, hexi sr) | _ -> raise Exit) blks_s) in
+    let htab, otoks = match split_ws obs with
+      | h :: r when String.length h > 2 && String.sub h 0 2 = "H:" ->
+        Array.of_list (split ',' (String.sub h 2 (String.length h - 2))), r
+      | _ -> raise Exit in
+    let hash_lit i = if i >= 0 && i <= nblk then "(0x" ^ htab.(i) ^ ")%N" else coq_n (unknown_hash i) in
+    let kind_s = function 0 -> "DPrimary" | 1 -> "DSecondaryPlain" | 2 -> "DSecondaryVRF" | _ -> "DNone" in
+    let terms = ref [] and oks = ref [] and head = ref "0" in
+    List.iter2 (fun op tok ->
+        match op.[0] with
+        | 'a' ->
+          let i = hexi (String.sub op 1 (String.length op - 1)) in
+          let (p, nu, k, a, sr) = blks.(i) in
+          let pi = hexi p in
+          terms := Printf.sprintf "SAdd (mkHeader %s %s (0x%s)%%N %s) %d%%N (%d)%%Z" (hash_lit i)
+              (if pi >= 0 && pi < i then hash_lit pi else coq_n (unknown_hash pi)) nu (kind_s k) sr
+              (int_of_string ("0x" ^ a)) :: !terms;
+          oks := (if tok = "A:ok" then "true" else "false") :: !oks
+        | 'f' ->
+          (match split '.' (String.sub op 1 (String.length op - 1)), split '|' tok with
+           | [i; r; s], [res; _; after] ->
+             terms := Printf.sprintf "SFin %s (0x%s)%%N (0x%s)%%N" (hash_lit (hexi i)) r s :: !terms;
+             oks := (if res = "F:ok" then "true" else "false") :: !oks;
+             (match split ';' after with hi :: _ -> head := hi | [] -> raise Exit)
+           | _ -> raise Exit)
+        | _ -> ()) ops otoks;
+    if !head = "err" || !head = "?" then raise Exit;
+    Some (Printf.sprintf "fin_matches %s 0%%N [%s] [%s] %s" (hash_lit 0)
+            (String.concat "; " (List.rev !terms)) (String.concat "; " (List.rev !oks)) (hash_lit (hexi !head)))
+  with _ -> None
+
+let () = run_driver ~coq check
